@@ -350,6 +350,12 @@ def getter(pid):
                     texts.append(pr.operand(t["discr"]))
             for tx in texts:
                 mentioned.update(re.findall(r"param:self\.(\w+)", tx))
+                # through another accessor of the same table (`is_empty` written as `self.len() == 0`): that
+                # accessor's own field, which it is checked for in its own row
+                for other in re.findall(r"Entry::(\w+)\(param:self\)", tx):
+                    for p2, f2 in tbl.get("getters", {}).items():
+                        if p2.endswith("::Entry::" + other) and p2 != path:
+                            mentioned.add(f2)
             key = "R-GETTER/%s" % path
             extra = sorted(mentioned - {field})
             if extra:
